@@ -164,9 +164,13 @@ def case_form(rng, key, form):
 FORMS4 = ['lower', 'upper', 'cap', 'digits']
 
 
+DIGIT_RUNS = [1, 1, 2, 3, 4, 5, 5, 6, 8, 8, 10, 12]      # the property puts no bound on the digit suffix
+
+
 def digits(rng, form):
+    """Digit suffix of the key: the 'digits' form gets 1..12 digits (leading zeros included)."""
     if form == 'digits':
-        return str(rng.randrange(0, 1000))
+        return ''.join(rng.choice('0123456789') for _ in range(rng.choice(DIGIT_RUNS)))
     return ''
 
 
@@ -202,9 +206,21 @@ def gen_secret(rng, cls, style=None, maxlen=40):
     return s
 
 
+FLAG_PUNCT = '_[\\]^`'        # the characters of [A-z] that are not letters: flags like --new_value, -n_v
+
+
 def gen_flag(rng, wide=False):
-    pool = 'abcdefghijklmnopqrstuvwxyzABCXYZ' + ('[\\]^_`İıſK' if wide else '')
-    return ''.join(rng.choice(pool) for _ in range(rng.randrange(1, 7)))
+    """A flag name over the class the patterns use, [A-z]: letters and, in half of the cases, also `_` (often) and
+    the other five characters between Z and a; `wide` adds the non-ASCII characters IGNORECASE equates with letters."""
+    letters = 'abcdefghijklmnopqrstuvwxyzABCXYZ'
+    x = rng.random()
+    if x < 0.5 and not wide:
+        pool = letters
+    elif x < 0.8:
+        pool = letters + '___'
+    else:
+        pool = letters + FLAG_PUNCT + ('İıſK' if wide else '')
+    return ''.join(rng.choice(pool) for _ in range(rng.randrange(1, 9)))
 
 
 def gen_mask_text(rng, adversarial=False):
@@ -700,7 +716,8 @@ def shrink_case(case):
 
 def search(ctx, seeds, full=False):
     rng = ctx.rng
-    fails = []
+    fails = []           # failures outside every listed class (at most five, then the search stops)
+    known = {}           # one example per listed finding class; these never use up the budget for new failures
     kinds = set()
 
     ids = listed_ids()
@@ -710,8 +727,14 @@ def search(ctx, seeds, full=False):
         ctx.evaluations += 1
         why = oracle(case)
         if why:
-            k = known_class(case, ids) or why.split(':')[0]
+            kf = known_class(case, ids)
+            k = kf or why.split(':')[0]
             ctx.count('search/fail/' + k)
+            if kf:
+                if kf not in known:
+                    small = minimise(case)
+                    known[kf] = Failure(small, {'kind': k, 'what': oracle(small)})
+                return
             if k in kinds and len(fails) >= 3:
                 return
             kinds.add(k)
@@ -730,11 +753,11 @@ def search(ctx, seeds, full=False):
     for k, f, r in grid:
         check(gen_rendering_case(rng, key=k, rendering=r, form=f, nparts=1, strict=True))
         if len(fails) >= 5:
-            return fails
+            return fails + list(known.values())
     for c in repeated_grid(rng, True, listed, (3 if full else 1) if ctx.quick else 10):
         check(c)
         if len(fails) >= 5:
-            return fails
+            return fails + list(known.values())
     for i in range(n):
         x = rng.random()
         if x < 0.7:
@@ -745,7 +768,7 @@ def search(ctx, seeds, full=False):
             check(gen_nokey(rng))
         if len(fails) >= 5:
             break
-    return fails
+    return fails + list(known.values())
 
 
 def minimise(case):
